@@ -184,7 +184,7 @@ def jacobian_rules(cx):
     b = cx.fn(f'{J3}::point_point_jacobian')
     if b:
         dag = b.dag()
-        st = [m for m in b.mutations() if m.kind == 'store' and b.local_name(m.root) == 'result']
+        st = [m for m in b.mutations() if m.kind == 'store' and m.root in cx.returned_locals(b)]
         rows = {}
         Nn = '(call Matrix::normalize (call OPoint::sub (param p) (param c)))'
         FR = '(call OPoint::from (call OPoint::sub (param p) (call *RcParams3::current_rc (param params))))'
